@@ -372,6 +372,98 @@ func genC17Case(g *rand.Rand, size int) c17Case {
 	return cs
 }
 
+// bit-reversed low k bits of a hash: the bucket of a key in a table of 2^k buckets
+func bucketOf(h uint64, k uint) int {
+	v := uint32(h) & (1<<k - 1)
+	r := uint32(0)
+	for i := uint(0); i < k; i++ {
+		if v&(1<<i) != 0 {
+			r |= 1 << (k - 1 - i)
+		}
+	}
+	return int(r)
+}
+
+// crafted cases: two keys that share a bucket of the 16-table and sit in one even/odd bucket pair of
+// the 2^k table (first pair, last pair, a random pair), plus a few loners; then enough add/remove churn
+// to make remove() consider halving the table. Targets rehash, the doubling loop and the shrink test.
+func (r *c17Runner) craftedCases(g *rand.Rand, n int) ([]c17Case, error) {
+	type cand struct {
+		name string
+		h    uint64
+	}
+	var pool []cand
+	for i := 0; i < 6000; i++ {
+		name := fmt.Sprintf("f%d", i)
+		hs, err := r.hash(name)
+		if err != nil {
+			return nil, err
+		}
+		h, _ := strconv.ParseUint(hs, 10, 64)
+		pool = append(pool, cand{name, h})
+	}
+	var out []c17Case
+	for c := 0; c < n; c++ {
+		k := uint(5 + g.Intn(3)) // 32, 64 or 128 buckets
+		size := 1 << k
+		pair := []int{0, size/2 - 1, g.Intn(size / 2), size/2 - 1}[g.Intn(4)]
+		var a, b string
+		for _, cd := range pool {
+			switch bucketOf(cd.h, k) {
+			case 2 * pair:
+				if a == "" {
+					a = cd.name
+				}
+			case 2*pair + 1:
+				if b == "" {
+					b = cd.name
+				}
+			}
+		}
+		if a == "" || b == "" {
+			continue
+		}
+		cs := c17Case{Target: []string{"set", "keys", "hash"}[g.Intn(3)]}
+		cs.Ops = append(cs.Ops, c17Op{Kind: "add", Member: a}, c17Op{Kind: "add", Member: b}, c17Op{Kind: "layout"})
+		// loners that do not complete any other pair
+		used := map[int]bool{2 * pair: true, 2*pair + 1: true}
+		for _, cd := range pool[g.Intn(3000):] {
+			if len(used) >= 2+g.Intn(4) {
+				break
+			}
+			bk := bucketOf(cd.h, k)
+			if !used[bk] && !used[bk^1] && cd.name != a && cd.name != b {
+				used[bk] = true
+				cs.Ops = append(cs.Ops, c17Op{Kind: "add", Member: cd.name})
+			}
+		}
+		// churn on one loner-free temporary element until the removal counter passes half the table
+		tmp := ""
+		for _, cd := range pool {
+			bk := bucketOf(cd.h, k)
+			if !used[bk] && !used[bk^1] {
+				tmp = cd.name
+				break
+			}
+		}
+		for i := 0; i < size/2+3; i++ {
+			cs.Ops = append(cs.Ops, c17Op{Kind: "add", Member: tmp}, c17Op{Kind: "rem", Member: tmp})
+			if i%5 == 4 || i >= size/2-1 {
+				cs.Ops = append(cs.Ops, c17Op{Kind: "layout"})
+			}
+		}
+		cs.Ops = append(cs.Ops, c17Op{Kind: "scan", Cursor: 0, Count: 1000})
+		// now remove one of the pair: the table may shrink at the next opportunity
+		cs.Ops = append(cs.Ops, c17Op{Kind: "rem", Member: []string{a, b}[g.Intn(2)]})
+		for i := 0; i < size/2+3; i++ {
+			cs.Ops = append(cs.Ops, c17Op{Kind: "add", Member: tmp}, c17Op{Kind: "rem", Member: tmp})
+		}
+		cs.Ops = append(cs.Ops, c17Op{Kind: "layout"}, c17Op{Kind: "scan", Cursor: 0, Count: 1000})
+		out = append(out, cs)
+	}
+	return out, nil
+}
+
 func runC17(cfg runCfg, res *Result) error {
 	g := rand.New(rand.NewSource(cfg.seed))
 	srv, err := startServer("")
@@ -453,6 +545,29 @@ func runC17(cfg runCfg, res *Result) error {
 			report("layout/scan", why, cs)
 		}
 	}
+	ncraft := 24
+	if cfg.tier == "thorough" {
+		ncraft = 300
+	}
+	crafted, err := r.craftedCases(g, ncraft)
+	if err != nil {
+		return err
+	}
+	for _, cs := range crafted {
+		if len(res.Mismatches) >= 3 {
+			break
+		}
+		res.Histories++
+		why, at, err := r.run(cs)
+		if err != nil {
+			return fmt.Errorf("crafted case: %v", err)
+		}
+		if why != "" {
+			cs.Ops = cs.Ops[:at+1]
+			report("layout/scan", why, cs)
+		}
+	}
+	res.Extra["crafted_collision_cases"] = len(crafted)
 	res.Extra["layout_scan_cases"] = res.Histories
 	its := 0
 	for i := 0; i < iters && len(res.Mismatches) < 3; i++ {
